@@ -24,8 +24,8 @@ import common
 import tlc
 
 TIERS = {
-    "quick": dict(full=False, per=1, crcL=4, heavy=False),
-    "thorough": dict(full=True, per=2, crcL=6, heavy=True),
+    "quick": dict(full=False, per=3, crcL=4, heavy=False),
+    "thorough": dict(full=True, per=4, crcL=6, heavy=True),
 }
 
 
